@@ -61,8 +61,8 @@ Fixpoint group_add {A} (slot : N) (x : A) (g : list (N * list A)) : list (N * li
   | (s, xs) :: r => if N.eqb s slot then (s, xs ++ [x]) :: r else (s, xs) :: group_add slot x r
   end.
 
-Definition group_by {A} (key : A -> bytes) (items : list A) : list (N * list A) :=
-  fold_left (fun g x => group_add (Hash (key x)) x g) items [].
+Definition group_by {A} (slotf : bytes -> N) (key : A -> bytes) (items : list A) : list (N * list A) :=
+  fold_left (fun g x => group_add (slotf (key x)) x g) items [].
 
 Fixpoint pairs (l : list bytes) : list (bytes * bytes) :=
   match l with
@@ -84,15 +84,15 @@ Definition hd_key (keys : list bytes) : bytes := match keys with k :: _ => k | [
 Definition build (ty0 : N) (nargs : Z) (args : list bytes) (req : bytes) : N * list bytes * list (N * cfrag) :=
   if N.eqb ty0 ReqMget then
     (ty0, args, map (fun g => (fst g, {| cf_key := hd_key (snd g); cf_req := frag1_req (bs "mget") (snd g) |}))
-                    (group_by (fun k => k) args))
+                    (group_by Hash (fun k => k) args))
   else if N.eqb ty0 ReqDel then
     (ty0, args, map (fun g => (fst g, {| cf_key := hd_key (snd g); cf_req := frag1_req (bs "del") (snd g) |}))
-                    (group_by (fun k => k) args))
+                    (group_by Hash (fun k => k) args))
   else if N.eqb ty0 ReqMset then
     (ty0, map fst (pairs args),
      map (fun g => (fst g, {| cf_key := match snd g with kv :: _ => fst kv | [] => [] end;
                               cf_req := frag2_req (snd g) |}))
-         (group_by (fun kv : bytes * bytes => fst kv) (pairs args)))
+         (group_by Hash (fun kv : bytes * bytes => fst kv) (pairs args)))
   else if (N.eqb ty0 ReqEval || N.eqb ty0 ReqEvalsha)%bool then
     let key := nth 2 args [] in
     ((if (nargs <? 3)%Z then ReqWrongArgumentsNumber else ty0), [],
